@@ -191,6 +191,30 @@ namespace detail
 		};
 #		endif
 #	endif//GLM_HAS_BITSCAN_WINDOWS
+
+	// For signed types, the bits above the extracted field are copies of its most significant bit
+	template<length_t L, typename T, qualifier Q, bool IsSigned>
+	struct compute_bitfieldExtract_signed
+	{
+		GLM_FUNC_QUALIFIER static vec<L, T, Q> call(vec<L, T, Q> const& Field, int)
+		{
+			return Field;
+		}
+	};
+
+	template<length_t L, typename T, qualifier Q>
+	struct compute_bitfieldExtract_signed<L, T, Q, true>
+	{
+		GLM_FUNC_QUALIFIER static vec<L, T, Q> call(vec<L, T, Q> const& Field, int Bits)
+		{
+			typedef typename make_unsigned<T>::type U;
+			if(Bits <= 0 || Bits >= static_cast<int>(sizeof(T) * 8))
+				return Field;
+			T const Sign = static_cast<T>(static_cast<U>(static_cast<U>(1) << (Bits - 1)));
+			T const Extension = static_cast<T>(static_cast<U>(static_cast<U>(~static_cast<U>(0)) << Bits));
+			return mix(Field, Field | Extension, notEqual(Field & Sign, vec<L, T, Q>(0)));
+		}
+	};
 }//namespace detail
 
 	// uaddCarry
@@ -274,7 +298,8 @@ namespace detail
 	{
 		GLM_STATIC_ASSERT(std::numeric_limits<T>::is_integer, "'bitfieldExtract' only accept integer inputs");
 
-		return (Value >> static_cast<T>(Offset)) & static_cast<T>(detail::mask(Bits));
+		vec<L, T, Q> const Result((Value >> static_cast<T>(Offset)) & static_cast<T>(detail::mask(Bits)));
+		return detail::compute_bitfieldExtract_signed<L, T, Q, std::numeric_limits<T>::is_signed>::call(Result, Bits);
 	}
 
 	// bitfieldInsert
